@@ -252,6 +252,31 @@ func (f *FileSpec) build() (content, unsigned []byte, err error) {
 			return nil, nil, errors.New("length out of range")
 		}
 		unsigned = append(gen.Filler(f.L, f.Tag), be64(f.L+8)...)
+	case "lookalike":
+		// an UNSIGNED file (its trailing length equals its size) whose content looks like a signed
+		// one: the integrity-block magic where a signed file has it (octets 2..9), a complete
+		// empty block, the magic elsewhere, the bundle magic. "Any content" is in the domain.
+		if f.L < 0 || f.L > 1<<20 {
+			return nil, nil, errors.New("length out of range")
+		}
+		ib := []byte{0xF0, 0x9F, 0x96, 0x8B, 0xF0, 0x9F, 0x93, 0xA6}
+		var pre []byte
+		switch f.Tag % 6 {
+		case 0:
+			pre = append(append([]byte{0x83, 0x48}, ib...), 0x44, '1', 'b', 0, 0, 0x80)
+		case 1:
+			pre = append([]byte{0x85, 0x48}, ib...)
+		case 2:
+			pre = append([]byte{}, ib...)
+		case 3:
+			pre = append([]byte{0, 0}, ib...)
+		case 4:
+			pre = append(append([]byte{0x83, 0x48}, ib...), 0x44, '1', 'b', 0, 0, 0x81, 0x82, 0xa0, 0x40)
+		default:
+			pre = append([]byte{0x00, 0x83, 0x48}, ib...)
+		}
+		body := append(pre, gen.Filler(f.L, f.Tag)...)
+		unsigned = append(body, be64(len(body)+8)...)
 	case "testfile":
 		unsigned, err = os.ReadFile(filepath.Join(repoDir(), "go/integrityblock/testfile.wbn"))
 		if err != nil {
@@ -710,7 +735,7 @@ var fileLens = []int{0, 1, 7, 8, 9, 4095, 4096, 4097, 65535, 65536}
 
 func genFile(t *rapid.T, negatives bool) FileSpec {
 	f := FileSpec{Trailer: "correct"}
-	switch k := rapid.IntRange(0, 24).Draw(t, "filekind"); {
+	switch k := rapid.IntRange(0, 27).Draw(t, "filekind"); {
 	case k < 20: // rapid favours small draws: the common shape comes first
 		f.Kind = "filler"
 		if rapid.Bool().Draw(t, "boundary") {
@@ -724,8 +749,12 @@ func genFile(t *rapid.T, negatives bool) FileSpec {
 		f.NEx = rapid.IntRange(1, 3).Draw(t, "nex")
 		f.L = rapid.SampledFrom([]int{0, 1, 23, 24, 255, 256, 4096, 20000}).Draw(t, "bodylen")
 		f.Tag = rapid.Uint64Range(0, 1000).Draw(t, "tag")
-	default:
+	case k < 25:
 		f.Kind = "testfile"
+	default:
+		f.Kind = "lookalike"
+		f.L = rapid.SampledFrom([]int{0, 1, 8, 100, 4096}).Draw(t, "len")
+		f.Tag = rapid.Uint64Range(0, 1000).Draw(t, "tag")
 	}
 	if !negatives {
 		return f
@@ -1016,6 +1045,21 @@ var cliProp = vh.Define("C07", "cli", func(c CliCase, r *vh.R) {
 	}
 	r.Classf("refused-exit-%d", res2.exit)
 })
+
+// TestCLILookalikes: the six look-alike contents (see FileSpec kind "lookalike") through the
+// command-line signer, signed once and signed again.
+func TestCLILookalikes(t *testing.T) {
+	if os.Getenv("VERIF_CLI") == "" {
+		t.Fatalf("sign-bundle binary not available (VERIF_CLI unset)")
+	}
+	for tag := uint64(0); tag < 6; tag++ {
+		for _, mode := range []string{"sign", "resign"} {
+			if !cliProp.One(t, CliCase{Key: vh.B{byte(tag), 7}, Mode: mode, File: FileSpec{Kind: "lookalike", L: 50, Tag: tag, Trailer: "correct"}}) {
+				return
+			}
+		}
+	}
+}
 
 func TestPropCLI(t *testing.T) {
 	bin := filepath.Join(os.Getenv("VERIF_CLI"), "sign-bundle")
